@@ -1,4 +1,4 @@
-import AmVerif.Gen.Tables
+import AmVerif.Gen.TabLock
 import AmVerif.Model.ReloaderFacts
 import AmVerif.Lemmas.Mailbox
 import AmVerif.Lemmas.MailboxRank
